@@ -2,13 +2,17 @@
    PARTIAL.  The model makes every panicking site of the modelled bookkeeping
    core explicit (Base/Outcome.v Site); the correspondence check shows that
    the model under rust_decimal rounding predicts every panic of the real core
-   on generated in-range inputs.  Proved: which sites can NOT be reached.
+   on generated in-range inputs.  Proved: under exact arithmetic the ONLY
+   panic of the bookkeeping core, for any history of rows that parse, is the
+   effective-cent one (C05_exact_panics_only_at_effective_cent) - so every
+   other panic of the real code is an effect of rust_decimal rounding or
+   overflow; and which sites can not be reached under any arithmetic.
    The property itself is REFUTED for the faithful model (three classes of
    in-range inputs panic, see the witnesses below and known-findings.json);
    "whatever the bytes" for the third-party layers is fuzzing, not proof. *)
 From Coq Require Import List NArith ZArith QArith Qcanon Bool.
 From ACB Require Import Base.Outcome Base.QcExtra Base.Fit Base.Arith Model.Tx Model.Ledger Model.Sfl
-     Model.DeltaList Proofs.C04Inv Proofs.C05Sites.
+     Model.DeltaList Proofs.C04Inv Proofs.C05Sites Proofs.C04Reject Proofs.C05NoPanic.
 Import ListNotations.
 
 (* Under exact arithmetic neither assert_eq! of set_latest_post_status can
@@ -45,6 +49,28 @@ Theorem C05_arithmetics_sane : arith_sane exact /\ arith_sane dec.
 Proof. split; [exact C05Sites.exact_sane | exact C05Sites.dec_sane]. Qed.
 Check C05_arithmetics_sane : arith_sane exact /\ arith_sane dec.
 Print Assumptions C05_arithmetics_sane.
+
+
+(* Whole runs, exact arithmetic, every history: on rows that parse (positive /
+   non-negative quantities as Tx::try_from guarantees: valid_tx; the
+   registered flag of an affiliate a function of its id: row_ok'), whatever
+   the length, the affiliates, the order or the opening position, the ledger
+   can panic at ONE site only: c_maybe_round_to_effective_cent's unwrap
+   (math.rs:93; first witness of C05_refuted).  All 25 other panic sites of the
+   modelled core (constrained-decimal constructors, assert_eq!, unwraps of
+   missing map entries, division by zero) are unreachable without rounding. *)
+Theorem C05_exact_panics_only_at_effective_cent : forall regof, regof default_id = false ->
+  forall init txs ds p,
+  run exact init txs = (ds, Some (SPanic p)) ->
+  init_ok2 init -> Forall (row_ok' regof) txs -> Forall vtx txs ->
+  p = PanicConstraint Site.eff_cent.
+Proof. exact C05NoPanic.run_panic_only_eff_cent. Qed.
+Check C05_exact_panics_only_at_effective_cent : forall regof, regof default_id = false ->
+  forall init txs ds p,
+  run exact init txs = (ds, Some (SPanic p)) ->
+  init_ok2 init -> Forall (row_ok' regof) txs -> Forall vtx txs ->
+  p = PanicConstraint Site.eff_cent.
+Print Assumptions C05_exact_panics_only_at_effective_cent.
 
 (* ---- refutation: in-range inputs on which the faithful model panics ---- *)
 Local Open Scope Z_scope.
@@ -91,3 +117,13 @@ Check C05_refuted :
   snd (run dec None w_split) = Some (SPanic (PanicAssert Site.set_latest_all)) /\
   snd (run exact None w_split) = None.
 Print Assumptions C05_refuted.
+
+(* non-vacuity of C05_exact_panics_only_at_effective_cent: the first witness
+   meets its hypotheses and does panic (there) *)
+Example C05_exact_hypotheses_hold :
+  init_ok2 None /\ Forall (row_ok' (fun _ => false)) w_eff /\ Forall vtx w_eff /\
+  snd (run exact None w_eff) = Some (SPanic (PanicConstraint Site.eff_cent)).
+Proof.
+  split; [intros i E; discriminate E|]. split; [repeat constructor|].
+  split; [repeat constructor | vm_compute; reflexivity].
+Qed.
